@@ -515,6 +515,8 @@ class World(object):
                 k = lang.eval_value(k, None, vals)
         except lang.EvalFault:
             k = None
+        if k is not None and (not isinstance(k, int) or isinstance(k, bool)):
+            k = None
         if k is not None and k <= 0:
             k = 1
         it["k"] = k
@@ -1287,6 +1289,8 @@ class World(object):
         pos, T = f["pos"], f["task"]
         errs = self.snap["errors"]
         hits = [e for e in errs if any(m in (e.get("message") or "") for m in self.MARKERS)]
+        if f.get("kind") == "wrong_value":
+            hits = [e for e in errs if e.get("task_id") == T and not (e.get("message") or "").startswith("Execution failed")]
         expected = False
         if pos in ("vars", "wf_input"):
             expected = True
@@ -1316,6 +1320,14 @@ class World(object):
                             % (pos, T, hits[:2]))
             elif pos in ("when", "publish") and not any(e.get("task_transition_id") for e in hits):
                 self.report("C11", "recorded", "error entry for the failing %s of %s names no transition: %r" % (pos, T, hits[:2]))
+            elif pos == "when" and f.get("tr2") is not None:
+                trs = self.p["tasks"][T]["next"]
+                pairs = set((i, tgt) for i in (f["tr"], f["tr2"]) for tgt in (trs[i].get("do") or []) if tgt != "retry")
+                named = set(e.get("task_transition_id") for e in hits if e.get("task_transition_id"))
+                fired_for = [x for x, w_ in L.runtime_errors if x is not None and L.execs[x].task == T]
+                if len(set(fired_for)) == 1 and len(named) < len(pairs):
+                    self.report("C11", "recorded", "two transitions of %s failed to evaluate (%d edges) but the error entries "
+                                "name only %r" % (T, len(pairs), sorted(named)))
             ok_status = ("failed", "canceled") if (self.cancel_req or self.status == "canceled") else ("failed",)
             if self.status not in ok_status and not self.inflight:
                 self.report("C11", "fails", "expression at %s of %s failed but the workflow is %s" % (pos, T, self.status))
